@@ -73,13 +73,15 @@ def _dead_end_funcs(prog, A):
     return dead
 
 
-def carry_over(ctx, prog, A):
+def carry_over(ctx, prog, A, modes=None, floor=60):
     e = A.engine
     mainfn = prog.func('main', 'main')
     workfn = prog.func('process', 'work')
     dead = _dead_end_funcs(prog, A)
     nloc_total = 0
     for mode in sorted(e.modes):
+        if modes is not None and mode not in modes:
+            continue
         res = _mode_resolver(A, mode)
         md = reset.MustDef(prog, A.cg, res)
         ml = schedlaws.ModeLaws(prog, A, mode)
@@ -200,8 +202,9 @@ def carry_over(ctx, prog, A):
                    'path of the initialisation prefix {%s}' % (ws[0][0].name, ws[0][1].line, f.name, i.line, '; '.join(steps)))
         nloc_total += nloc
         ctx.evaluations += len(written)
-    ctx.floor('run-written global locations with readers', nloc_total, 60)
-    _check_exceptions(ctx, prog, A)
+    ctx.floor('run-written global locations with readers', nloc_total, floor)
+    if modes is None:
+        _check_exceptions(ctx, prog, A)
     # static locals: none may exist in run code that are written (function-local `static` survives runs)
     for m in prog.modules.values():
         for g in m.globals.values():
